@@ -73,7 +73,7 @@ def run_c05(res, rng):
     cases = corpus_cases('C05')
     for i in range(n):
         r = rng.fork('s%d' % i)
-        cases.append(D.gen_history(r, 's%d' % i, neps=r.range(1, 4 if res.tier == 'quick' else 8), nitems=r.range(2, 6), kinds=('chain', 'chain', 'unseg')))
+        cases.append(D.gen_history(r, 's%d' % i, neps=r.range(1, 4 if res.tier == 'quick' else 8), nitems=r.range(2, 6), kinds=('chain', 'chain', 'unseg', 'mixed', 'pierced')))
     # long chains and counter wrap
     for i in range(20):
         r = rng.fork('l%d' % i)
